@@ -349,10 +349,21 @@ where
         };
         out.push(Val::Pair(Box::new(iv), Box::new(Val::Num(sz(&it)))));
     }
-    if let Some(c) = cloned {
+    if let Some(mut c) = cloned {
+        // drain the clone from both ends alternately (back first), so that both of its cursors
+        // are exercised independently of the original's
         let mut rest = Vec::new();
-        for t in c {
-            rest.push(conv(t));
+        let mut back = true;
+        loop {
+            let item = if back { lib!(c.next_back()) } else { lib!(c.next()) };
+            match item {
+                None => break,
+                Some(t) => rest.push(conv(t)),
+            }
+            back = !back;
+            if rest.len() > 4096 {
+                break;
+            }
         }
         out.push(Val::Str("clone".into()));
         out.push(Val::Num(count_at_clone));
